@@ -165,7 +165,7 @@ def conform_traces(traces, scratch, shards=16, module="TraceCore.tla", cfg="Trac
         from harness import devs
         cfg = os.path.join(scratch, "TraceCore.gen.cfg")
         with open(cfg, "w") as fh:
-            fh.write("CONSTANTS\n  MaxFrames = 20\n" + "".join("  %s = %s\n" % kv for kv in sorted(devs.devs().items()))
+            fh.write("CONSTANTS\n  MaxFrames = 40\n" + "".join("  %s = %s\n" % kv for kv in sorted(devs.devs().items()))
                      + "INIT Init\nNEXT Next\nCONSTRAINT Progress\nVIEW View\nPOSTCONDITION Report\nCHECK_DEADLOCK FALSE\n")
 
     def one(si):
@@ -181,7 +181,7 @@ def conform_traces(traces, scratch, shards=16, module="TraceCore.tla", cfg="Trac
         v = parse_conf(r["out"])
         states += parse_stats(r["out"])["distinct"]
         if "Error:" in r["out"]:
-            errors.append(r["out"][-4000:])
+            errors.append((r["out"][max(0, r["out"].find("Error:") - 300):][:3000] + "\n...\n" + r["out"][-1500:]))
         for local, ids in enumerate(idx[si]):
             if (local + 1) in v:
                 res[ids] = v[local + 1]
